@@ -39,7 +39,7 @@ ftrunc = specfn("ftrunc", [TBytes, TInt], TBytes,
                 py=lambda d, n: d[:n] if n <= len(d) else d + b"\x00" * (n - len(d)),
                 doc="file contents after truncate(n)")
 ftrunc.define = lambda d, n: z3.If(n <= Len(d), z3.Extract(d, 0, n), z3.Concat(d, L.zeros(n - Len(d))))
-fitem = specfn("fitem", [TBytes, TInt, TInt], TBytes,
+fitem = specfn("fitem", [TBytes, TInt, TInt], TBytes, macro=True,
                py=lambda d, off, n: d[off:off + n] + b"\x00" * (n - len(d[off:off + n])),
                doc="the n bytes at offset off of a file read as if it were followed by zeros")
 fitem.define = lambda d, off, n: z3.Concat(z3.Extract(d, off, n), L.zeros(n - Len(z3.Extract(d, off, n))))
